@@ -2,6 +2,7 @@ package lang
 
 import (
 	"fmt"
+	"strings"
 	"unicode"
 )
 
@@ -252,25 +253,29 @@ func (l *Lexer) GetString(token *Token) string {
 	return l.src[token.Pos : token.Pos+token.Len]
 }
 
+// returns the source line containing the byte offset pos, its 1-based line
+// number and the 0-based byte column of pos within it. a position on a newline
+// belongs to the line that newline terminates
 func (l *Lexer) GetLineAndCol(pos int) (string, int, int) {
+	if pos > len(l.src) {
+		pos = len(l.src)
+	}
+
 	line := 1
-	col := 1
 	lineStart := 0
-	inLine := false
-	for i, r := range l.src {
-		if r == '\n' {
-			if inLine {
-				return l.src[lineStart:i], line, col
-			}
+	for i := 0; i < pos; i++ {
+		if l.src[i] == '\n' {
 			line++
 			lineStart = i + 1
 		}
-		if i == pos {
-			inLine = true
-			col = i - lineStart
-		}
 	}
-	return l.src[lineStart:], line, col
+
+	lineEnd := len(l.src)
+	if i := strings.IndexByte(l.src[lineStart:], '\n'); i >= 0 {
+		lineEnd = lineStart + i
+	}
+
+	return l.src[lineStart:lineEnd], line, pos - lineStart
 }
 
 func (l *Lexer) error(pos int, msg string) SyntaxError {
